@@ -2334,3 +2334,153 @@ Proof.
       exists h, d', cs. split; [exact R'|]. split; [exact I'|]. rewrite L.
       split; [reflexivity|]. split; [reflexivity|]. split; [reflexivity|]. split; [reflexivity|]. exact A'.
 Qed.
+
+(* ------------------------------------------------------------------ ADF_Write_Block_Data: the chunk loop *)
+Lemma absb_first d c r x : 0 <= x < csize c -> absb d (c :: r) x = dget d (cstart c + HDR + x).
+Proof. intros H. unfold absb. destruct (Z.ltb_spec x 0); [lia|]. cbn [phys]. destruct (Z.ltb_spec x (csize c)); [reflexivity|lia]. Qed.
+Lemma absb_skip d c r x : 0 < csize c -> csize c <= x -> absb d (c :: r) x = absb d r (x - csize c).
+Proof.
+  intros Hc H. unfold absb. destruct (Z.ltb_spec x 0), (Z.ltb_spec (x - csize c) 0); try lia. cbn [phys].
+  destruct (Z.ltb_spec x (csize c)); [lia|reflexivity].
+Qed.
+
+Lemma over_over_app f a (l1 l2 : list Z) x : over (over f a l1) (a + lenZ l1) l2 x = over f a (l1 ++ l2) x.
+Proof.
+  unfold over. rewrite lenZ_app. pose proof (lenZ_nonneg l1). pose proof (lenZ_nonneg l2).
+  destruct (Z.leb_spec (a + lenZ l1) x), (Z.ltb_spec x (a + lenZ l1 + lenZ l2)); cbn [andb].
+  - destruct (Z.leb_spec a x), (Z.ltb_spec x (a + (lenZ l1 + lenZ l2))); cbn [andb]; try lia.
+    rewrite app_nth2 by (unfold lenZ in *; lia). do 2 f_equal. unfold lenZ in *. lia.
+  - destruct (Z.leb_spec a x), (Z.ltb_spec x (a + lenZ l1)); cbn [andb]; try lia.
+    destruct (Z.ltb_spec x (a + (lenZ l1 + lenZ l2))); [lia|reflexivity].
+  - destruct (Z.leb_spec a x), (Z.ltb_spec x (a + lenZ l1)); cbn [andb].
+    + destruct (Z.ltb_spec x (a + (lenZ l1 + lenZ l2))); [|lia]. rewrite app_nth1 by (unfold lenZ in *; lia). reflexivity.
+    + lia.
+    + reflexivity.
+    + reflexivity.
+  - lia.
+Qed.
+
+Lemma over_nil f a x : over f a [] x = f x.
+Proof. unfold over. rewrite lenZ_nil. destruct (Z.leb_spec a x), (Z.ltb_spec x (a + 0)); cbn [andb]; auto; lia. Qed.
+
+Lemma wblock_loop_ok sb eb : 0 <= sb -> sb <= eb ->
+  forall suf d base bw (data : list Z), Forall (chunk_at d) suf -> pdisj (map ext suf) -> 0 <= base ->
+  bw = Z.min (eb - sb) (Z.max 0 (base - sb)) -> eb - sb - bw <= lenZ data ->
+  let m := Z.min (eb - sb) (Z.max 0 (base + cap_of suf - sb)) - bw in
+  exists d', wblock_loop cf fa suf d sb eb (eb - sb) base bw data = (Ok (base + cap_of suf, bw + m, skipn (Z.to_nat m) data), d') /\
+    Forall (chunk_at d') suf /\ frame d d' (in_exts suf) /\
+    (forall x, 0 <= x -> absb d' suf x = over (absb d suf) (sb + bw - base) (firstn (Z.to_nat m) data) x).
+Proof.
+  intros Hsb Hse. induction suf as [|c r IH]; intros d base bw data C PD Hbase Hbw Hd m.
+  - subst m. cbn [cap_of fold_right]. rewrite Z.add_0_r. replace (Z.min (eb - sb) (Z.max 0 (base - sb)) - bw) with 0 by lia.
+    cbn [wblock_loop Z.to_nat skipn firstn]. exists d. rewrite Z.add_0_r. split; [reflexivity|]. split; [constructor|].
+    split; [apply frame_refl|]. intros x Hx. now rewrite over_nil.
+  - inversion C as [|? ? Hc Cr]; subst x l. pose proof (chunk_at_gp _ _ Hc) as (_ & _ & S).
+    pose proof (sizes_pos_cap _ (Forall_chunk_sizes _ _ Cr)) as Hr. pose proof PD as PDall. destruct PD as [PD1 PDr].
+    assert (Em0 : m = Z.min (eb - sb) (Z.max 0 (base + (csize c + cap_of r) - sb)) - bw) by reflexivity. clearbody m.
+    cbn [wblock_loop]. unfold bytes in *. set (cs := csize c) in *. pose proof (csize_addr c) as Ecs. fold cs in Ecs.
+    set (bw' := Z.min (eb - sb) (Z.max 0 (base + cs - sb))).
+    (* what follows once this chunk has received btw bytes at offset so (btw = 0: nothing was written) *)
+    assert (Cont : forall d1 btw, 0 <= btw -> bw + btw = bw' -> (0 < btw -> Z.max 0 (sb - base) + btw <= cs) ->
+              (0 < btw -> sb + bw - base = Z.max 0 (sb - base)) ->
+              Forall (chunk_at d1) (c :: r) -> frame d d1 (in_ext c) ->
+              (forall x, 0 <= x < cs -> dget d1 (cstart c + HDR + x) = over (fun y => dget d (cstart c + HDR + y)) (sb + bw - base) (firstn (Z.to_nat btw) data) x) ->
+              exists d', wblock_loop cf fa r d1 sb eb (eb - sb) (base + cs) (bw + btw) (skipn (Z.to_nat btw) data)
+                         = (Ok (base + (cs + cap_of r), bw + m, skipn (Z.to_nat m) data), d') /\
+                Forall (chunk_at d') (c :: r) /\ frame d d' (in_exts (c :: r)) /\
+                (forall x, 0 <= x -> absb d' (c :: r) x = over (absb d (c :: r)) (sb + bw - base) (firstn (Z.to_nat m) data) x)).
+    { intros d1 btw Hb0 Hbw' Hfit Hso C1 Fr1 E1.
+    inversion C1 as [|? ? Hc1 Cr1]; subst x l.
+    destruct (IH d1 (base + cs) (bw + btw) (skipn (Z.to_nat btw) data) Cr1 PDr) as (d' & R' & C' & F' & A'); try lia.
+    { rewrite lenZ_skipn by lia. lia. }
+    set (m' := Z.min (eb - sb) (Z.max 0 (base + cs + cap_of r - sb)) - (bw + btw)) in *.
+    assert (Em : m = btw + m') by (unfold m'; lia). assert (Hm' : 0 <= m') by (unfold m', bw' in *; lia).
+    exists d'. split.
+    { rewrite R'. rewrite skipn_skipn'. replace (Z.to_nat m' + Z.to_nat btw)%nat with (Z.to_nat m) by lia.
+      replace (base + cs + cap_of r) with (base + (cs + cap_of r)) by ring. replace (bw + btw + m') with (bw + m) by lia. reflexivity. }
+    assert (Cc' : chunk_at d' c).
+    { apply (chunk_at_frame d1 d' c (in_exts r)); auto. intros x Hx (c' & I' & Hx'). exact (pdisj_in c r PDall c' I' x Hx Hx'). }
+    split; [constructor; auto|]. split.
+    { eapply frame_trans; [exact Fr1|exact F'| |]; intros x Hx; apply in_exts_cons; auto. }
+    intros x Hx.
+    assert (Lb : lenZ (firstn (Z.to_nat btw) data) = btw) by (apply lenZ_firstn_ge; lia).
+    assert (Split : firstn (Z.to_nat m) data = firstn (Z.to_nat btw) data ++ firstn (Z.to_nat m') (skipn (Z.to_nat btw) data)).
+    { rewrite firstn_split_skipn. f_equal. lia. }
+    rewrite Split. rewrite <- over_over_app. rewrite Lb.
+    destruct (Z.lt_ge_cases x cs) as [Hin|Hout].
+    + (* a byte of this chunk *)
+      rewrite absb_first by (fold cs; lia).
+      assert (E' : dget d' (cstart c + HDR + x) = dget d1 (cstart c + HDR + x)).
+      { apply F'. intros (c' & I' & Hx'). apply (pdisj_in c r PDall c' I' (cstart c + HDR + x)); auto. unfold in_ext, HDR in *. lia. }
+      rewrite E', E1 by lia.
+      unfold over at 1. destruct (Z.leb_spec (sb + bw - base + btw) x), (Z.ltb_spec x (sb + bw - base + btw + lenZ (firstn (Z.to_nat m') (skipn (Z.to_nat btw) data)))); cbn [andb].
+      * (* cannot be: if more follows, this chunk was filled to its end *)
+        exfalso. assert (0 < m').
+        { destruct (Z.eq_dec m' 0) as [Z0|]; [|lia]. rewrite Z0 in H0. cbn [Z.to_nat firstn] in H0. rewrite lenZ_nil in H0. lia. }
+        unfold m', bw' in *. lia.
+      * unfold over. destruct ((sb + bw - base <=? x) && (x <? sb + bw - base + lenZ (firstn (Z.to_nat btw) data))); auto.
+        now rewrite absb_first by (fold cs; lia).
+      * unfold over. destruct ((sb + bw - base <=? x) && (x <? sb + bw - base + lenZ (firstn (Z.to_nat btw) data))); auto.
+        now rewrite absb_first by (fold cs; lia).
+      * lia.
+    + (* a byte of a later chunk *)
+      rewrite absb_skip by (fold cs; lia). fold cs. rewrite A' by lia.
+      assert (Eold : absb d1 r (x - cs) = absb d (c :: r) x).
+      { rewrite (absb_skip d c r x) by (fold cs; lia). fold cs. unfold absb. destruct (x - cs <? 0); auto.
+        destruct (phys r (x - cs)) as [a|] eqn:Pa; auto. apply Fr1.
+        destruct (phys_in r (x - cs) a (Forall_chunk_sizes _ _ Cr) ltac:(lia) Pa) as (c' & I' & B').
+        intros Hx'. apply (pdisj_in c r PDall c' I' a Hx'). unfold in_ext, HDR in *. pose proof (csize_addr c'). lia. }
+      unfold over at 1 3.
+      set (L' := lenZ (firstn (Z.to_nat m') (skipn (Z.to_nat btw) data))).
+      assert (HL' : 0 <= L' <= m') by (unfold L'; pose proof (lenZ_firstn_le (skipn (Z.to_nat btw) data) (Z.to_nat m')); pose proof (lenZ_nonneg (firstn (Z.to_nat m') (skipn (Z.to_nat btw) data))); lia).
+      destruct (Z.eq_dec m' 0) as [Z0|NZ].
+      * assert (L' = 0) by lia. rewrite H.
+        destruct (Z.leb_spec (sb + (bw + btw) - (base + cs)) (x - cs)), (Z.ltb_spec (x - cs) (sb + (bw + btw) - (base + cs) + 0)); cbn [andb]; try lia;
+        destruct (Z.leb_spec (sb + bw - base + btw) x), (Z.ltb_spec x (sb + bw - base + btw + 0)); cbn [andb]; try lia;
+        rewrite Eold; unfold over; rewrite Lb;
+        destruct (Z.leb_spec (sb + bw - base) x), (Z.ltb_spec x (sb + bw - base + btw)); cbn [andb]; try lia; try reflexivity;
+        exfalso; unfold bw' in *; lia.
+      * assert (Hfull : sb + bw - base + btw = cs) by (unfold m', bw' in *; lia).
+        replace (sb + (bw + btw) - (base + cs)) with 0 by lia. rewrite Hfull.
+        destruct (Z.leb_spec 0 (x - cs)), (Z.ltb_spec (x - cs) (0 + L')); cbn [andb]; try lia;
+        destruct (Z.leb_spec cs x), (Z.ltb_spec x (cs + L')); cbn [andb]; try lia.
+        -- do 2 f_equal. lia.
+        -- rewrite Eold. unfold over. rewrite Lb.
+           destruct (Z.leb_spec (sb + bw - base) x), (Z.ltb_spec x (sb + bw - base + btw)); cbn [andb]; try lia; reflexivity. }
+    (* the cases of the loop body *)
+    assert (NoOp : bw = bw' ->
+              exists d', wblock_loop cf fa r d sb eb (eb - sb) (base + cs) bw data
+                         = (Ok (base + (cs + cap_of r), bw + m, skipn (Z.to_nat m) data), d') /\
+                Forall (chunk_at d') (c :: r) /\ frame d d' (in_exts (c :: r)) /\
+                (forall x, 0 <= x -> absb d' (c :: r) x = over (absb d (c :: r)) (sb + bw - base) (firstn (Z.to_nat m) data) x)).
+    { intros E. destruct (Cont d 0) as (d' & R' & Rest); try lia; auto.
+      - apply frame_refl.
+      - intros x Hx. cbn [Z.to_nat firstn]. now rewrite over_nil.
+      - exists d'. rewrite Z.add_0_r in R'. cbn [Z.to_nat skipn] in R'. split; [exact R'|exact Rest]. }
+    rewrite cap_of_cons. fold cs.
+    destruct (Z.gtb_spec sb (base + cs)) as [Skip|In].
+    { apply NoOp. unfold bw'. lia. }
+    replace (base + cs - cs) with base by ring.
+    set (so := if sb >? base then sb - base else 0). assert (Eso : so = Z.max 0 (sb - base)) by (unfold so; destruct (Z.gtb_spec sb base); lia).
+    clearbody so.
+    set (btw1 := if bw + (cs - so) >? eb - sb then eb - sb - bw else cs - so).
+    assert (Eb1 : btw1 = Z.min (cs - so) (eb - sb - bw)) by (unfold btw1; destruct (Z.gtb_spec (bw + (cs - so)) (eb - sb)); lia).
+    clearbody btw1.
+    destruct (Z.eqb_spec btw1 0) as [B0|B0]; [cbn [orb]; apply NoOp; unfold bw'; lia|].
+    destruct (Z.gtb_spec base eb) as [G|G]; [cbn [orb]; apply NoOp; unfold bw'; lia|]. cbn [orb].
+    destruct (rewrite_chunk d c so btw1 data Hc) as (d1 & R1 & C1 & H1 & F1); try lia.
+    fold cs in R1. rewrite R1. cbn [bindR].
+    assert (Lf : lenZ (firstn (Z.to_nat btw1) data) = btw1) by (apply lenZ_firstn_ge; lia).
+    assert (Fr1 : frame d d1 (in_ext c)).
+    { intros x Hx. apply F1; unfold in_ext in Hx; unfold HDR in *; lia. }
+    apply (Cont d1 btw1); try lia; auto.
+    + unfold bw'. lia.
+    + constructor; [exact C1|]. rewrite Forall_forall in *. intros c' I'. apply (chunk_at_frame d d1 c' (in_ext c)); auto.
+      intros x Hx Hx'. exact (pdisj_in c r PDall c' I' x Hx' Hx).
+    + intros x Hx. unfold over. rewrite Lf. replace (sb + bw - base) with so by lia.
+      destruct (Z.leb_spec so x), (Z.ltb_spec x (so + btw1)); cbn [andb].
+      * specialize (H1 (Z.to_nat (x - so))). rewrite <- H1 by (unfold lenZ in Lf; lia). f_equal. unfold HDR. lia.
+      * apply F1; unfold HDR in *; lia.
+      * apply F1; unfold HDR in *; lia.
+      * lia.
+Qed.
